@@ -13,7 +13,7 @@ impl Layer {
 }
 pub struct Msg;
 #[verifier::external_body]
-fn msg() -> Msg { Msg }
+fn opaque_msg() -> Msg { Msg }
 pub struct LaneDataFrame;
 
 pub struct AlpideReadoutFrame {
